@@ -61,6 +61,9 @@ func cmdSeq(args []string) int {
 			ns := 3 + r.Intn(*maxStates-2)
 			c.Names, c.Schema = gen.RandSchema(r, ns, 0.15+0.25*r.Float64(), true, true)
 			c.Label = fmt.Sprintf("rnd#%d", i)
+		case "dag":
+			c.Names, c.Schema = gen.DagSchema(r, 4+r.Intn(3), 0.35)
+			c.Label = fmt.Sprintf("dag#%d", i)
 		case "chain":
 			c.Names, c.Schema = gen.ChainSchema(r, 2+r.Intn(4))
 			c.Label = fmt.Sprintf("chain#%d", i)
